@@ -3,7 +3,7 @@
    it yields; every transport / server / cache fault is an outcome that is not an authentic
    answer (UBadURL, UErr, FetchErr, or a response / bundle failing Authentic, Current, BundleGood).
    The theorems hold for every world, i.e. every assignment of faults to any number of URLs. *)
-From NCG Require Import Model.Revocation Proofs.Ocsp Proofs.CrlCheck Proofs.Revocation Run.RevSpec Proofs.ReflectRev.
+From NCG Require Import Model.Revocation Proofs.Ocsp Proofs.CrlCheck Proofs.Revocation Run.RevSpec Proofs.ReflectRev Proofs.SpecAcceptsModel.
 
 Theorem C06_fail_closed : forall w st c, c_ocsp c <> [] \/ c_crl c <> [] ->
   let r := cr_result (fst (check_cert w st c)) in
@@ -48,3 +48,10 @@ Print Assumptions C06_checked_good_evidence.
 Theorem C06_checked_revoked_evidence : forall w st c, revoked_evidence_b w st true c = true <-> RevokedEvidence w st c.
 Proof. exact revoked_evidence_b_iff. Qed.
 Print Assumptions C06_checked_revoked_evidence.
+
+(* ... and they accept every verdict of the model *)
+Theorem C06_spec_side_accepts_model : forall w st c, c_ocsp c <> [] \/ c_crl c <> [] ->
+  (cr_result (fst (check_cert w st c)) = ROK -> good_evidence_b w st true c = true) /\
+  (cr_result (fst (check_cert w st c)) = RRevoked -> revoked_evidence_b w st true c = true).
+Proof. exact model_verdict_has_evidence. Qed.
+Print Assumptions C06_spec_side_accepts_model.
